@@ -12,6 +12,8 @@ from vf.chk import And, Or, Not, Implies, Iff, If
 PIX_SHAPES = ['circle', 'ellipse', 'rectangle', 'polygon', 'annulus-circle', 'annulus-ellipse', 'annulus-rectangle', 'line',
               'point', 'text']
 ANGLES = [0 * u.deg, 30 * u.deg, -45 * u.deg, 200 * u.deg, 1 * u.rad]
+# strings of text regions: quote characters at either end are legal text (they are what a strip() of quotes would eat)
+TEXTS = {'text': 'some text', 'text-apos': "beam 5'", 'text-quot': '12"', 'text-lead': "'tis a \"q\"", 'text-brace-free': '  padded  '}
 METAS = {
     'plain': ({}, {}),
     'text': ({'text': 'a label; with # odd = chars'}, {}),
@@ -22,6 +24,7 @@ METAS = {
     'point': ({}, {'point': 'x 7', 'width': 2}),
     'quote1': ({'text': 'r = 30"'}, {}),
     'quote2': ({'text': '"M31" core', 'tag': ["scale bar 5'"]}, {}),
+    'emptytext': ({'text': '', 'tag': ['t']}, {'color': 'red'}),
     'flags': ({'select': 0, 'highlite': 1, 'fixed': 1, 'move': 0, 'source': 1}, {'textrotate': 0}),
 }
 
@@ -61,8 +64,8 @@ def build_pix(kind, m, pre, meta, visual, ang):
         return R.LinePixelRegion(PixCoord(r_('sx'), r_('sy')), PixCoord(r_('ex'), r_('ey')), meta=meta, visual=visual)
     if kind == 'point':
         return R.PointPixelRegion(c(), meta=meta, visual=visual)
-    if kind == 'text':
-        return R.TextPixelRegion(c(), 'some text', meta=meta, visual=visual)
+    if kind in TEXTS:
+        return R.TextPixelRegion(c(), TEXTS[kind], meta=meta, visual=visual)
     if kind == 'compound':
         return R.CirclePixelRegion(c(), p_('r')) | R.CirclePixelRegion(PixCoord(r_('bx'), r_('by')), p_('r2'))
     raise ValueError(kind)
@@ -105,8 +108,8 @@ def build_sky(kind, frame, meta, visual, ang):
         return R.LineSkyRegion(c, SkyCoord(c.spherical.lon.deg + 0.003, c.spherical.lat.deg + 0.001, unit='deg', frame=frame), meta=meta, visual=visual)
     if kind == 'point':
         return R.PointSkyRegion(c, meta=meta, visual=visual)
-    if kind == 'text':
-        return R.TextSkyRegion(c, 'sky text', meta=meta, visual=visual)
+    if kind in TEXTS:
+        return R.TextSkyRegion(c, TEXTS[kind], meta=meta, visual=visual)
     raise ValueError(kind)
 
 
@@ -179,7 +182,7 @@ def h_roundtrip(kinds, metas, includes, prec, ang_i, frames, m):
     for i, (k, mk, inc, fr) in enumerate(zip(kinds, metas, includes, frames)):
         md, vd = METAS[mk]
         md = dict(md)
-        if k == 'text':
+        if k in TEXTS:
             md.pop('text', None)      # a text region's string is its text parameter
         if inc != 'absent':
             md['include'] = inc
@@ -225,16 +228,16 @@ def h_roundtrip(kinds, metas, includes, prec, ang_i, frames, m):
         m.require(f'{tag}: include / exclude sense preserved', _included(new) == _included(orig))
         md = METAS[metas[i]][0]
         md = dict(md)
-        if kinds[i] == 'text':
+        if kinds[i] in TEXTS:
             md.pop('text', None)
-        if 'text' in md and kinds[i] != 'text':
+        if 'text' in md and kinds[i] not in TEXTS:
             m.require(f'{tag}: text label preserved', new.meta.get('text') == md['text'])
         if 'tag' in md:
             m.require(f'{tag}: tags preserved', new.meta.get('tag') == md['tag'])
         for k_ in ('select', 'highlite', 'fixed', 'move', 'source'):
             if k_ in md:
                 m.require(f'{tag}: {k_} flag preserved', new.meta.get(k_) == md[k_])
-        if kinds[i] == 'text':
+        if kinds[i] in TEXTS:
             m.require(f'{tag}: text content preserved', new.text == orig.text)
     # parse -> serialise -> parse is a fixed point
     with warnings.catch_warnings():
@@ -283,7 +286,8 @@ LITERALS = {
     'polygon': 'polygon(1,2,7.5,3,4,9.25)', 'annulus': 'annulus(10.5,20.25,3.5,5.5)', 'ellipse-annulus': 'ellipse(10.5,20.25,3.5,2.25,5.5,4.25,30)',
     'box-annulus': 'box(10.5,20.25,3.5,2.25,5.5,4.25,30)', 'line': 'line(1,2,7.5,3)', 'point': 'point(10.5,20.25)', 'text': 'text(10.5,20.25)',
 }
-LITERAL_PROPS = ['fill=1 color=red width=2', 'dash=1 dashlist=8 3 color=#00ff7f', 'fill=0 select=0 move=0 tag={t 1} tag={t2}', 'fill=1 text={a;b} font="helvetica 12 bold roman"']
+LITERAL_PROPS = ['fill=1 color=red width=2', 'dash=1 dashlist=8 3 color=#00ff7f', 'fill=0 select=0 move=0 tag={t 1} tag={t2}', 'fill=1 text={a;b} font="helvetica 12 bold roman"',
+                 'text={} color=red width=2 tag={t 1}']
 
 
 def h_fixed_literal(kind, pi, frame, m):
@@ -336,6 +340,10 @@ def harnesses(tier):
     for mk in mk_names:
         hs.append((f'pixel-meta/circle/{mk}', P(h_roundtrip, ['circle'], [mk if mk != 'point' else 'visual'], ['absent'], 4, 1, ['image'])))
     hs.append(('pixel-meta/point/point', P(h_roundtrip, ['point'], ['point'], ['absent'], 4, 1, ['image'])))
+    for tk in TEXTS:
+        if tk != 'text':
+            hs.append((f'pixel/{tk}', P(h_roundtrip, [tk], ['plain'], ['absent'], 4, 1, ['image'])))
+            hs.append((f'sky/{tk}/fk5', P(h_roundtrip, [tk], ['visual'], [0], 4, 1, ['fk5'])))
     hs.append(('pixel-meta/text/font', P(h_roundtrip, ['text'], ['font'], ['absent'], 4, 1, ['image'])))
     for fr in ('icrs', 'fk5', 'fk4', 'galactic', 'barycentricmeanecliptic'):
         for kind in (PIX_SHAPES if not q else ['circle', 'ellipse', 'polygon', 'annulus-ellipse', 'line', 'text', 'rectangle']):
